@@ -85,6 +85,49 @@ TOY_INT = {  # name: (p, q, g)
 }
 
 
+def medium_group(qbits=40, pbits=72, seed=1):
+    """a deterministic custom (p, q, g) of medium size: q prime of qbits bits, p = k*q + 1 prime of pbits bits,
+    g = h^k mod p != 1 (input generation only; the specification re-checks the group in C18-style events)"""
+    import random
+    rng = random.Random(seed * 7919 + qbits * 31 + pbits)
+
+    def is_prime(n):
+        if n < 2:
+            return False
+        for a in (2, 3, 5, 7, 11, 13, 17, 19, 23, 29, 31, 37):
+            if n % a == 0:
+                return n == a
+        d, r = n - 1, 0
+        while d % 2 == 0:
+            d //= 2
+            r += 1
+        for a in (2, 3, 5, 7, 11, 13, 17, 19, 23, 29, 31, 37):
+            x = pow(a, d, n)
+            if x in (1, n - 1):
+                continue
+            for _ in range(r - 1):
+                x = x * x % n
+                if x == n - 1:
+                    break
+            else:
+                return False
+        return True
+    while True:
+        q = rng.getrandbits(qbits) | (1 << (qbits - 1)) | 1
+        if is_prime(q):
+            break
+    while True:
+        k = rng.getrandbits(pbits - qbits) | (1 << (pbits - qbits - 1))
+        k += k % 2
+        p = k * q + 1
+        if p.bit_length() == pbits and is_prime(p):
+            break
+    h = 2
+    while pow(h, k, p) == 1:
+        h += 1
+    return p, q, pow(h, k, p)
+
+
 def toy_curve_modules(Q, d, L, By):
     """The library's own ed25519_basic.py / ed25519_group.py from the working
     tree with the right-hand sides of the four top-level constants Q, L, d, By
